@@ -1,21 +1,26 @@
 import Femio.Driver.Proto
+import Femio.Driver.C01
 import Femio.Driver.C02
+import Femio.Driver.C03
 import Femio.Driver.C04
 import Femio.Driver.C05
 import Femio.Driver.C07
 import Femio.Driver.C08
 import Femio.Driver.C09
+import Femio.Driver.C10
 import Femio.Driver.C11
+import Femio.Driver.C12
 import Femio.Driver.C13
 import Femio.Driver.C14
 import Femio.Driver.C15
 import Femio.Driver.C17
+import Femio.Driver.C18
 import Femio.Driver.C19
 /-! `femio_driver`: line-protocol front end of the executable model (imports core-only modules). -/
 open Femio
 
 def handlers : List (List String → Option String) :=
-  [ C02.handle, C04.handle, C05.handle, C07.handle, C08D.handle, C09.handle, C11.handle, C13.handle, C14.handle, C15D.handle, C17D.handle, C19.handle ]
+  [ C01.handle, C02.handle, C03.handle, C04.handle, C05.handle, C05K.handle, C07.handle, C08D.handle, C09.handle, C10.handle, C11.handle, C12.handle, C13.handle, C14.handle, C15D.handle, C17D.handle, C18.handle, C19.handle ]
 
 def handleLine (line : String) : String :=
   let toks := Proto.tokens line
